@@ -724,6 +724,56 @@ theorem errors_runFrom (caught : List RdErr) (H : Hooks σ) (hH : ∀ a p, (H.re
     simp only [runFrom]
     rw [ih _ (by simpa using hr.2) a, b]
 
+/-! ### a transport error; ended means not running -/
+
+theorem exc_open (caught : List RdErr) (H : Hooks σ) {st : St σ} (ho : Open st) (e : RdErr) :
+    (step caught H st (.exc e)).face.status = handled caught e ∧
+    (step caught H st (.exc e)).spawned = st.spawned := by
+  have hr : st.face.status = .running := ho.2
+  simp [step, hr, St.spawned]
+
+/-- `run()` has ended → `face.running` is False (`shutdown()` in the `except` clause, or `main_loop`'s `finally`) -/
+def EndedStopped (st : St σ) : Prop := st.face.status ≠ .running → st.running = false
+
+theorem endedStopped_step (caught : List RdErr) (H : Hooks σ) {st : St σ} (hp : EndedStopped st) (ev : Ev) :
+    EndedStopped (step caught H st ev) := by
+  intro hne
+  have pass : ∀ res : Face × List Pkt, (afterPass H st res).face.status ≠ .running →
+      (afterPass H st res).running = false := by
+    intro res h
+    rw [(afterPass_face H st res).1] at h
+    rw [afterPass_running]; simp [h]
+  cases ev with
+  | feed c =>
+    cases hs : st.face.status with
+    | running => simp only [step, hs] at hne ⊢; exact pass _ hne
+    | shutdown => simp only [step, hs] at hne ⊢; exact hp (by rw [hs]; simp)
+    | crashed e => simp only [step, hs] at hne ⊢; exact hp (by rw [hs]; simp)
+  | close c =>
+    cases hs : st.face.status with
+    | running => simp only [step, hs] at hne ⊢; exact pass _ hne
+    | shutdown => simp only [step, hs] at hne ⊢; exact hp (by rw [hs]; simp)
+    | crashed e => simp only [step, hs] at hne ⊢; exact hp (by rw [hs]; simp)
+  | exc e =>
+    cases hs : st.face.status with
+    | running => simp only [step, hs]
+    | shutdown => simp only [step, hs] at hne ⊢; exact hp (by rw [hs]; simp)
+    | crashed e' => simp only [step, hs] at hne ⊢; exact hp (by rw [hs]; simp)
+  | shutdown => rfl
+  | turn =>
+    obtain ⟨_, b, c, _⟩ := step_turn_spawned caught H st
+    rw [b] at hne; rw [c]; exact hp hne
+  | step1 =>
+    obtain ⟨_, b, c⟩ := step_step1_spawned caught H st
+    rw [b] at hne; rw [c]; exact hp hne
+  | raise k => exact hp hne
+
+theorem endedStopped_runFrom (caught : List RdErr) (H : Hooks σ) (h : List Ev) : ∀ {st : St σ},
+    EndedStopped st → EndedStopped (runFrom caught H st h) := by
+  induction h with
+  | nil => intro st hp; exact hp
+  | cons e es ih => intro st hp; exact ih (endedStopped_step caught H hp e)
+
 /-! ### UDP -/
 namespace Udp
 
